@@ -957,7 +957,7 @@ pub fn run(prop: &'static str, tier: Tier) -> i32 {
         test,
         &[
             "the reference interpreter transcribes the documented semantics (DESIGN.md Appendix A); effective keys are computed by the harness' own rule",
-            "identifier shapes are restricted to snake_case fields / PascalCase variants without digits or acronyms",
+            "for snake_case fields / PascalCase variants without digits or acronyms the camelCase reference is the harness' own rule; for the few identifiers outside that domain (sha256sum, userID, HTTPGet, ...) it is convert_case 0.6 Case::Camel",
         ],
     )
 }
